@@ -72,6 +72,14 @@ MUTANTS = [
  ('escaper-dot-not-listed', 'escaper', 'grapheme.rs', 'const CHARS_TO_ESCAPE: [&str; 14] = [\n    "(", ")", "[", "]", "{", "}", "+", "*", "-", ".", "?", "|", "^", "$",\n];', 'const CHARS_TO_ESCAPE: [&str; 13] = [\n    "(", ")", "[", "]", "{", "}", "+", "*", "-", "?", "|", "^", "$",\n];', 'fail', 'escaper.every_metacharacter_is_listed'),
  ('escaper-backslash-after-character', 'escaper', 'grapheme.rs', 'character.replace(char_to_escape, &format!("{}{}", "\\\\", char_to_escape));', 'character.replace(char_to_escape, &format!("{}{}", char_to_escape, "\\\\"));', 'fail', 'escaper.round_prefixes_backslash'),
  ('escaper-tab-written-as-newline', 'escaper', 'grapheme.rs', ".replace('\\t', \"\\\\t\");", ".replace('\\t', \"\\\\n\");", 'fail', 'escaper.controls_single'),
+ ('benign-concat-none-check-swapped', 'expr', 'expression.rs', 'if a.is_none() || b.is_none() {\n            return None;', 'if b.is_none() || a.is_none() {\n            return None;', 'pass', ''),
+ ('benign-display-caret-branches-swapped', 'render', 'regexp.rs', '        let caret = if self.config.is_start_anchor_disabled {\n            String::new()\n        } else {\n            Component::Caret(self.config.is_verbose_mode_enabled)\n                .to_repr(self.config.is_output_colorized)\n        };', '        let caret = if !self.config.is_start_anchor_disabled {\n            Component::Caret(self.config.is_verbose_mode_enabled)\n                .to_repr(self.config.is_output_colorized)\n        } else {\n            String::new()\n        };', 'pass', ''),
+ ('benign-escape-condition-order', 'escape', 'grapheme.rs', "} else if use_surrogate_pairs && ('\\u{10000}'..='\\u{10ffff}').contains(&c) {", "} else if ('\\u{10000}'..='\\u{10ffff}').contains(&c) && use_surrogate_pairs {", 'pass', ''),
+ ('benign-split-rule-operands-swapped', 'split', 'cluster.rs', "let contains_backslash = it.chars().count() >= 2 && it.contains('\\\\');", "let contains_backslash = it.contains('\\\\') && it.chars().count() >= 2;", 'pass', ''),
+ ('benign-cli-flag-statements-reordered', 'cli', 'main.rs', '                if cli.is_digit_converted {\n                    builder.with_conversion_of_digits();\n                }\n\n                if cli.is_non_digit_converted {\n                    builder.with_conversion_of_non_digits();\n                }', '                if cli.is_non_digit_converted {\n                    builder.with_conversion_of_non_digits();\n                }\n\n                if cli.is_digit_converted {\n                    builder.with_conversion_of_digits();\n                }', 'pass', ''),
+ ('benign-component-arms-reordered', 'render', 'component.rs', '                Component::Hyphen => "-".to_string(),\n                Component::IgnoreCaseFlag => "(?i)".to_string(),', '                Component::IgnoreCaseFlag => "(?i)".to_string(),\n                Component::Hyphen => "-".to_string(),', 'pass', ''),
+ ('benign-find-next-state-max-compared-first', 'trie', 'dfa.rs', '            } else if current_grapheme.maximum() == grapheme.maximum() {', '            } else if grapheme.maximum() == current_grapheme.maximum() {', 'pass-kf', ''),
+ ('benign-elim-inner-loops-index-renamed', 'elim', 'expression.rs', '                    for j in 0..n {\n                        a[(i, j)] = Self::union(\n                            &a[(i, j)],\n                            &Self::concatenate(&a[(i, n)], &a[(n, j)], config),', '                    for k in 0..n {\n                        a[(i, k)] = Self::union(\n                            &a[(i, k)],\n                            &Self::concatenate(&a[(i, n)], &a[(n, k)], config),', 'not-fail', ''),
  ('wasm-wrong-field', 'wasm', 'wasm.rs', 'self.builder.config.is_start_anchor_disabled = true;\n        self.clone()', 'self.builder.config.is_end_anchor_disabled = true;\n        self.clone()', 'fail', 'wasm.withoutStartAnchor'),
 ]
 def _one(repo, m):
@@ -94,6 +102,7 @@ def _one(repo, m):
                 if mm: kf_labels.add(mm.group(1))
         ok = (expect == 'fail' and r['status'] == 'failed' and any(obl in x for x in fails)) or (expect == 'pass' and r['status'] == 'verified') \
              or (expect == 'undecided-or-fail' and (r['status'] == 'undecided' or (r['status'] == 'failed' and any(obl in x for x in fails)))) \
+             or (expect == 'not-fail' and r['status'] in ('verified', 'undecided')) \
              or (expect == 'pass-kf' and r['status'] in ('verified', 'failed') and set(fails) <= kf_labels)
         return {'mutant': mid, 'unit': unit, 'expected': expect, 'status': r['status'], 'failed_obligations': sorted(set(fails))[:4], 'as_expected': ok}
     finally:
